@@ -118,6 +118,7 @@ class ModuleInfo:
 
 import os as _os
 _FOLD_ARGS = _os.environ.get("VERIF_FOLD_ARGS", "1") == "1"
+_FOLD_IFS = _os.environ.get("VERIF_FOLD_IFS", "0") == "1"
 
 
 def _fold_returned_temporaries(tree: ast.AST) -> None:
@@ -145,6 +146,14 @@ def _fold_returned_temporaries(tree: ast.AST) -> None:
                 body = getattr(holder, field, None)
                 if not isinstance(body, list):
                     continue
+                if _FOLD_IFS:
+                    for j, st in enumerate(body):
+                        if isinstance(st, ast.If) and len(st.body) == 1 and len(st.orelse) == 1 and all(isinstance(x, ast.Assign) and len(x.targets) == 1 and isinstance(x.targets[0], ast.Name) for x in (st.body[0], st.orelse[0])) \
+                                and st.body[0].targets[0].id == st.orelse[0].targets[0].id:
+                            new = ast.Assign(targets=[st.body[0].targets[0]], value=ast.IfExp(test=st.test, body=st.body[0].value, orelse=st.orelse[0].value), lineno=st.lineno, col_offset=st.col_offset,
+                                             end_lineno=st.end_lineno, end_col_offset=st.end_col_offset)
+                            ast.fix_missing_locations(new)
+                            body[j] = new
                 i = 0
                 while i + 1 < len(body):
                     a, b = body[i], body[i + 1]
